@@ -90,95 +90,61 @@ Proof.
     destruct (tbl_eqb x item), (existsb (tbl_eqb x) (q_from s)), (existsb (tbl_eqb x) (q_with s)),
              (existsb (fun j => tbl_eqb x (j_item j)) (q_joins s)); try destruct (ptab_eqb _ _); try destruct (tbl_eqb x (TTab u)); reflexivity.
 Qed.
-Lemma available_none : forall s item, mem None (available s item) = is_none (q_update s).
-Proof.
-  intros s item. unfold available, base_tables.
-  rewrite !mem_app, !mem_none_map, mem_none_joins. cbn.
-  destruct (q_update s); reflexivity.
-Qed.
+
 Lemma validate_on_forallb : forall s item ts,
-  validate_on s item ts = forallb (fun t => mem t (available s item) || tref_eqb t None) ts.
+  validate_on s item ts = forallb (fun t => mem t (available s item) || tref_eqb t None || is_alq_ref t) ts.
 Proof.
   intros. unfold validate_on. fold (available s item).
-  rewrite <- (filter_nil_forallb _ (fun t => mem t (available s item) || tref_eqb t None)).
-  assert (E : forall l, filter (fun t => negb (mem t (available s item)) && negb (tref_eqb t None)) l
-                      = filter (fun t => negb (mem t (available s item) || tref_eqb t None)) l).
-  { induction l as [|a l IH]; cbn; auto. rewrite negb_orb, IH. reflexivity. }
+  rewrite <- (filter_nil_forallb _ (fun t => mem t (available s item) || tref_eqb t None || is_alq_ref t)).
+  assert (E : forall l, filter (fun t => negb (mem t (available s item)) && negb (tref_eqb t None) && negb (is_alq_ref t)) l
+                      = filter (fun t => negb (mem t (available s item) || tref_eqb t None || is_alq_ref t)) l).
+  { induction l as [|a l IH]; cbn; auto. rewrite !negb_orb, IH. reflexivity. }
   now rewrite E.
 Qed.
 
-(* the set of fields: deduplication by rendered key *)
-Lemma dedup_in : forall l seen f, In f (dedup_fields seen l) -> In f l.
-Proof.
-  induction l as [|g l IH]; cbn; intros seen f H; auto.
-  destruct (existsb (String.eqb (field_key g)) seen).
-  - right. eapply IH; eauto.
-  - destruct H as [->|H]; auto. right. eapply IH; eauto.
-Qed.
-Lemma dedup_repr : forall l seen f, In f l ->
-  existsb (String.eqb (field_key f)) seen = true \/
-  exists g, In g (dedup_fields seen l) /\ field_key g = field_key f.
-Proof.
-  induction l as [|h l IH]; cbn; intros seen f Hin; [tauto|].
-  destruct Hin as [->|Hin].
-  - destruct (existsb (String.eqb (field_key f)) seen) eqn:E; auto.
-    right. exists f. cbn. auto.
-  - destruct (existsb (String.eqb (field_key h)) seen) eqn:E.
-    + apply IH; auto.
-    + destruct (IH (field_key h :: seen) f Hin) as [H|[g [Hg Hk]]].
-      * cbn in H. apply orb_prop in H. destruct H as [H|H]; auto.
-        apply String.eqb_eq in H. right. exists h. cbn. auto.
-      * right. exists g. cbn. auto.
-Qed.
-
-Definition coherent (l : list jfield) : Prop :=
-  forall f g, In f l -> In g l -> field_key f = field_key g -> fst f = fst g.
-Lemma keys_coherent_coherent : forall l, keys_coherent l = true -> coherent l.
-Proof.
-  intros l H f g Hf Hg Hk. unfold keys_coherent in H.
-  rewrite forallb_forall in H. specialize (H f Hf). rewrite forallb_forall in H. specialize (H g Hg).
-  rewrite Hk, String.eqb_refl in H. cbn in H. now apply tref_eqb_eq.
-Qed.
-
-Lemma dedup_forallb : forall (P : tref -> bool) l, coherent l ->
-  forallb P (map fst (dedup_fields [] l)) = forallb P (map fst l).
-Proof.
-  intros P l Hc.
-  destruct (forallb P (map fst l)) eqn:E.
-  - apply forallb_forall. intros x Hx. apply in_map_iff in Hx. destruct Hx as [f [<- Hf]].
-    rewrite forallb_forall in E. apply E. apply in_map. eapply dedup_in; eauto.
-  - destruct (forallb P (map fst (dedup_fields [] l))) eqn:E2; auto.
-    rewrite <- E. symmetry. apply forallb_forall. intros x Hx. apply in_map_iff in Hx. destruct Hx as [f [<- Hf]].
-    destruct (dedup_repr l [] f Hf) as [H|[g [Hg Hk]]]; [discriminate|].
-    rewrite forallb_forall in E2.
-    rewrite <- (Hc g f (dedup_in _ _ _ Hg) Hf Hk). apply E2. now apply in_map.
-Qed.
-Lemma dedup_existsb : forall (P : tref -> bool) l, coherent l ->
-  existsb P (map fst (dedup_fields [] l)) = existsb P (map fst l).
-Proof.
-  intros P l Hc.
-  pose proof (dedup_forallb (fun x => negb (P x)) l Hc) as H.
-  assert (Hn : forall m, forallb (fun x => negb (P x)) m = negb (existsb P m)).
-  { induction m; cbn; auto. rewrite IHm. now rewrite negb_orb. }
-  rewrite !Hn in H.
-  destruct (existsb P (map fst (dedup_fields [] l))), (existsb P (map fst l)); cbn in H; congruence.
-Qed.
-
+(* JoinOn.validate rejects exactly the criteria that name a table (not a WITH query) which is no source *)
 Lemma join_on_exact : forall s item crit,
   validate_on s item (crit_all_tables crit) = negb (names_foreign_table s item crit).
 Proof.
   intros s item crit.
   rewrite validate_on_forallb. unfold names_foreign_table.
-  apply forallb_negb_existsb_in. intros [x|] Hin.
-  - rewrite available_some. cbn. now rewrite orb_false_r, negb_involutive.
+  apply forallb_negb_existsb_in. intros [[p|n|a]|] Hin.
+  - rewrite available_some. cbn. now rewrite !orb_false_r, negb_involutive.
+  - cbn. now rewrite orb_true_r.
+  - rewrite available_some. cbn. now rewrite !orb_false_r, negb_involutive.
   - cbn. now rewrite orb_true_r.
 Qed.
 
 Lemma on_field_valid : forall s item f0 r, q_from s = f0 :: r -> validate_on s item [Some f0; Some item] = true.
 Proof.
   intros s item f0 r Hf. rewrite validate_on_forallb. cbn [forallb].
-  rewrite !available_some. unfold join_source. rewrite Hf. cbn. rewrite !tbl_eqb_refl. cbn.
-  now rewrite !orb_true_r.
+  assert (H1 : mem (Some f0) (available s item) = true).
+  { rewrite available_some. unfold join_source. rewrite Hf. cbn. rewrite tbl_eqb_refl. cbn. now rewrite orb_true_r. }
+  assert (H2 : mem (Some item) (available s item) = true).
+  { rewrite available_some. unfold join_source. now rewrite tbl_eqb_refl. }
+  rewrite H1, H2. reflexivity.
+Qed.
+
+(* render time: the statement is complete and some criterion refers to a WITH query nobody defines *)
+Lemma renders_is_statement : forall s, renders s = is_statement s.
+Proof.
+  intros s. unfold renders, is_statement. rewrite <- truthy_ltb.
+  destruct (truthy (q_selects s)), (q_insert s), (q_update s), (q_delete s), (q_values s), (q_updates s); reflexivity.
+Qed.
+Lemma filter_nonnil_existsb : forall A (f : A -> bool) l,
+  (match filter f l with [] => false | _ => true end) = existsb f l.
+Proof. intros A f l. induction l as [|a l IH]; cbn; auto. destruct (f a); cbn; auto. Qed.
+Lemma existsb_ext_in : forall A (f g : A -> bool) l, (forall x, f x = g x) -> existsb f l = existsb g l.
+Proof. intros A f g l H. induction l as [|a l IH]; cbn; auto. now rewrite H, IH. Qed.
+Lemma existsb_map_item : forall a (js : list jrec),
+  existsb (tbl_eqb a) (map j_item js) = existsb (fun j => tbl_eqb a (j_item j)) js.
+Proof. intros a js. induction js as [|j js IH]; cbn; auto. now rewrite IH. Qed.
+Lemma unknown_with_spec : forall s, unknown_with s = refers_unknown_with s.
+Proof.
+  intros s. unfold unknown_with, refers_unknown_with.
+  apply existsb_ext_in. intro j. rewrite filter_nonnil_existsb.
+  apply existsb_ext_in. intro a. rewrite !existsb_app, existsb_map_item, !negb_orb.
+  now rewrite andb_assoc.
 Qed.
 
 (* ------------------------------------------------------------------------------------------ *)
@@ -187,68 +153,44 @@ Qed.
 Definition no_critless (s : qst) : bool := negb (existsb (fun j => is_none (j_crit j)) (q_joins s)).
 Definition in_targets (s : qst) (f : tref) : bool :=
   mem f [option_map TTab (q_insert s); option_map TTab (q_update s)].
-Definition not_base (s : qst) (tables : list ptab) : bool :=
-  existsb (fun p => negb (existsb (tbl_eqb (TTab p)) (q_from s ++ map TTab (join_tables s)))) tables.
+Definition not_base_f (s : qst) (f : tref) : bool :=
+  match f with
+  | Some (TTab p) => negb (existsb (tbl_eqb (TTab p)) (q_from s ++ map TTab (join_tables s)))
+  | _ => false
+  end.
 
-Lemma validate_ret1_ok : forall s tables f u,
+Lemma validate_ret1_ok : forall s f u,
   is_dml s = true -> no_critless s = true ->
-  validate_ret1 s tables (Ok u) f = if negb (in_targets s f) && not_base s tables then Err QueryExc else Ok tt.
+  validate_ret1 s (Ok u) f = if negb (in_targets s f) && not_base_f s f then Err QueryExc else Ok tt.
 Proof.
-  intros s tables f u Hd Hc. unfold validate_ret1. rewrite Hd.
+  intros s f u Hd Hc. unfold validate_ret1. rewrite Hd.
   unfold no_critless in Hc. apply negb_true_iff in Hc. rewrite Hc. reflexivity.
 Qed.
-Lemma validate_ret_fold : forall s tables fields acc,
+Lemma validate_ret_fold : forall s fields acc,
   is_dml s = true -> no_critless s = true ->
-  fold_left (validate_ret1 s tables) fields acc =
+  fold_left (validate_ret1 s) fields acc =
   match acc with
   | Err e => Err e
-  | Ok _ => if existsb (fun f => negb (in_targets s f)) fields && not_base s tables then Err QueryExc else Ok tt
+  | Ok _ => if existsb (fun f => negb (in_targets s f) && not_base_f s f) fields then Err QueryExc else Ok tt
   end.
 Proof.
-  intros s tables fields. induction fields as [|f fields IH]; intros acc Hd Hc.
+  intros s fields. induction fields as [|f fields IH]; intros acc Hd Hc.
   - cbn. destruct acc as [[]|]; auto.
   - cbn [fold_left existsb]. rewrite IH by auto. destruct acc as [u|e]; [|reflexivity].
     rewrite validate_ret1_ok by auto.
-    destruct (negb (in_targets s f)), (not_base s tables),
-             (existsb (fun f0 => negb (in_targets s f0)) fields); reflexivity.
+    destruct (negb (in_targets s f) && not_base_f s f); reflexivity.
 Qed.
-Lemma validate_ret_nil : forall s tables, validate_ret s [] tables = Ok tt.
-Proof. reflexivity. Qed.
-Lemma validate_ret_spec : forall s fields tables,
+Lemma validate_ret_spec : forall s fields,
   is_dml s = true -> no_critless s = true ->
-  validate_ret s fields tables =
-  if existsb (fun f => negb (in_targets s f)) fields && not_base s tables then Err QueryExc else Ok tt.
+  validate_ret s fields =
+  if existsb (fun f => negb (in_targets s f) && not_base_f s f) fields then Err QueryExc else Ok tt.
 Proof. intros. unfold validate_ret. now rewrite validate_ret_fold. Qed.
 
-Definition one_target (s : qst) : bool := is_none (q_insert s) || is_none (q_update s).
-
-Lemma in_targets_none : forall s, one_target s = true -> in_targets s None = true.
-Proof.
-  intros s H. unfold in_targets, one_target in *. cbn.
-  destruct (q_insert s), (q_update s); cbn in *; auto.
-Qed.
 Lemma in_targets_some : forall s p,
   in_targets s (Some (TTab p)) = optab_eqb (Some p) (q_insert s) || optab_eqb (Some p) (q_update s).
 Proof.
   intros s p. unfold in_targets. cbn.
   destruct (q_insert s), (q_update s); cbn; rewrite ?orb_false_r; auto.
-Qed.
-
-Lemma somes_in : forall A (l : list (option A)) a, In (Some a) l <-> In a (somes l).
-Proof.
-  intros A l a. induction l as [|[b|] l IH]; cbn; try tauto.
-  - rewrite <- IH. split; intros [H|H]; auto; left; congruence.
-  - rewrite <- IH. split; [intros [H|H]; [discriminate|auto] | auto].
-Qed.
-
-Lemma single_table_eq : forall t p q, single_table t = true -> In p (term_tables t) -> In q (term_tables t) -> p = q.
-Proof.
-  intros t p q H Hp Hq. unfold single_table in H.
-  destruct (term_tables t) as [|h r]; [contradiction|].
-  rewrite forallb_forall in H.
-  assert (E : forall x, In x (h :: r) -> x = h).
-  { intros x [<-|Hx]; auto. symmetry. apply ptab_eqb_eq. auto. }
-  rewrite (E p Hp), (E q Hq). reflexivity.
 Qed.
 
 Lemma existsb_app_base : forall p s,
@@ -259,45 +201,18 @@ Proof.
   induction (join_tables s) as [|a l IH]; cbn; auto. now rewrite IH.
 Qed.
 
-(* the validation of one term agrees with "some field is not the statement's own" *)
+(* the validation of one term = "some field is not the statement's own", field by field *)
 Lemma term_validate_exact : forall s t,
-  is_dml s = true -> one_target s = true -> single_table t = true -> keys_coherent (rfields_j t) = true ->
-  (existsb (fun f => negb (in_targets s f)) (term_fields t) && not_base s (term_tables t))
+  existsb (fun f => negb (in_targets s f) && not_base_f s f) (term_fields t)
   = existsb (fun f => negb (own_field s (fst f))) (rfields t).
 Proof.
-  intros s t Hd Ho Hs Hk.
-  unfold term_fields. rewrite dedup_existsb by now apply keys_coherent_coherent.
-  destruct (existsb (fun f => negb (own_field s (fst f))) (rfields t)) eqn:E.
-  - (* a foreign field: it is outside the targets, and its table is outside FROM and the joins *)
-    apply existsb_exists in E. destruct E as [[[p|] n] [Hin Hown]]; cbn [own_field fst negb] in Hown; [|discriminate].
-    apply negb_true_iff in Hown.
-    apply orb_false_elim in Hown. destruct Hown as [Hown H4].
-    apply orb_false_elim in Hown. destruct Hown as [Hown H3].
-    apply andb_true_intro. split.
-    + apply existsb_exists. exists (Some (TTab p)). split.
-      * unfold rfields_j. rewrite map_map. cbn. apply in_map_iff. exists (Some p, n). auto.
-      * rewrite in_targets_some. now rewrite Hown.
-    + unfold not_base. apply existsb_exists. exists p. split.
-      * unfold term_tables. apply somes_in. apply in_map_iff. exists (Some p, n). auto.
-      * rewrite existsb_app_base. now rewrite H3, H4.
-  - (* no foreign field *)
-    destruct (existsb (fun f => negb (in_targets s f)) (map fst (rfields_j t))) eqn:E1; cbn; auto.
-    destruct (not_base s (term_tables t)) eqn:E2; auto.
-    exfalso.
-    apply existsb_exists in E1. destruct E1 as [f [Hf Hnt]].
-    unfold rfields_j in Hf. rewrite map_map in Hf. cbn in Hf. apply in_map_iff in Hf.
-    destruct Hf as [[[p|] n] [<- Hin]]; cbn [fst option_map] in Hnt.
-    2:{ rewrite in_targets_none in Hnt by auto. discriminate. }
-    unfold not_base in E2. apply existsb_exists in E2. destruct E2 as [q [Hq Hnb]].
-    assert (Hp : In p (term_tables t)).
-    { unfold term_tables. apply somes_in. apply in_map_iff. exists (Some p, n). auto. }
-    rewrite (single_table_eq t q p Hs Hq Hp) in Hnb.
-    assert (Hown : negb (own_field s (fst (Some p, n))) = true).
-    { cbn [own_field fst]. rewrite in_targets_some in Hnt. apply negb_true_iff in Hnt. rewrite Hnt. cbn [orb].
-      rewrite existsb_app_base in Hnb. apply negb_true_iff in Hnb. now rewrite Hnb. }
-    assert (existsb (fun f => negb (own_field s (fst f))) (rfields t) = true).
-    { apply existsb_exists. exists (Some p, n). auto. }
-    congruence.
+  intros s t. unfold term_fields.
+  induction (rfields t) as [|[[p|] n] l IH]; cbn [map existsb fst option_map]; auto.
+  - rewrite IH. f_equal. unfold not_base_f, own_field.
+    rewrite in_targets_some, existsb_app_base.
+    destruct (optab_eqb (Some p) (q_insert s)), (optab_eqb (Some p) (q_update s)),
+             (existsb (tbl_eqb (TTab p)) (q_from s)), (existsb (ptab_eqb p) (join_tables s)); reflexivity.
+  - rewrite IH. f_equal. unfold not_base_f. cbn. now rewrite andb_false_r.
 Qed.
 
 (* everything the RETURNING guard reads, except _return_star, is left alone by returning() *)
@@ -307,30 +222,16 @@ Definition skipped (star : bool) (t : rterm) : bool :=
   star && match t with RStr false | RField _ _ => true | _ => false end.
 Definition star_term (t : rterm) : bool := match t with RStr true => true | _ => false end.
 
-Record ret_inv (s : qst) : Prop := {
-  ri_dml : is_dml s = true;
-  ri_one : one_target s = true
-}.
 Definition term_ok (s : qst) (t : rterm) : Prop :=
-  single_table t = true /\ keys_coherent (rfields_j t) = true /\ (needs_crit t = false \/ no_critless s = true)
+  (needs_crit t = false \/ no_critless s = true)
   /\ (t = RStr false -> is_some (q_insert s) || is_some (q_update s) || negb (q_delete s) || truthy (List.length (q_from s)) = true).
 
-Lemma set_rstar_same : forall s b t, ret_bad (set_rstar s b) t = ret_bad s t.
-Proof. reflexivity. Qed.
-
-Lemma validate_fieldless : forall s t, has_fields t = false ->
-  validate_ret s (term_fields t) (term_tables t) = Ok tt.
-Proof.
-  intros s t H. unfold has_fields in H. unfold term_fields, rfields_j.
-  destruct (rfields t); [reflexivity|discriminate].
-Qed.
-
-Lemma ret1_exact : forall s t, ret_inv s -> term_ok s t ->
+Lemma ret1_exact : forall s t, is_dml s = true -> term_ok s t ->
   ret1 s t = if skipped (pg_rstar s) t then Ok s
              else if ret_bad s t then Err QueryExc
              else Ok (if star_term t then set_rstar s true else s).
 Proof.
-  intros s t [Hd Ho] [Hs [Hk [Hc Hdel]]].
+  intros s t Hd [Hc Hdel].
   destruct t as [[|]|p n| |fk args|l r].
   - (* '*' *) unfold skipped. rewrite andb_false_r. reflexivity.
   - (* 'name' *)
@@ -338,7 +239,7 @@ Proof.
     destruct Hc as [Hc|Hc]; [discriminate|].
     specialize (Hdel eq_refl).
     assert (Hok : forall p, in_targets s (Some (TTab p)) = true ->
-                  return_field s [Some (TTab p)] [p] = if pg_rstar s then Ok s else Ok s).
+                  return_field s [Some (TTab p)] = if pg_rstar s then Ok s else Ok s).
     { intros p Hp. unfold return_field. destruct (pg_rstar s); auto.
       rewrite validate_ret_spec by auto. cbn [existsb]. rewrite Hp. reflexivity. }
     assert (Hb : ret_bad s (RStr false) = false) by reflexivity. rewrite Hb. cbn [star_term].
@@ -350,15 +251,15 @@ Proof.
         destruct (q_from s) as [|f0 fr] eqn:Ef; [discriminate|].
         unfold return_field. destruct (pg_rstar s); auto.
         rewrite validate_ret_spec by (auto; unfold is_dml; rewrite Ei, Eu, Hd; auto).
-        assert (Hnb : not_base s (ptabs_of [Some f0]) = false).
-        { unfold not_base. rewrite Ef. destruct f0; cbn; auto. now rewrite ptab_eqb_refl. }
-        rewrite Hnb, andb_false_r. reflexivity.
+        assert (Hnb : not_base_f s (Some f0) = false).
+        { unfold not_base_f. rewrite Ef. destruct f0; cbn; auto. now rewrite ptab_eqb_refl. }
+        cbn [existsb]. rewrite Hnb, andb_false_r. reflexivity.
   - (* a field *)
     unfold skipped. rewrite andb_true_r. cbn [ret1 star_term]. unfold return_field.
     destruct (pg_rstar s); auto.
     destruct Hc as [Hc|Hc]; [discriminate|].
     rewrite validate_ret_spec by auto.
-    rewrite term_validate_exact by auto.
+    rewrite term_validate_exact.
     unfold ret_bad. cbn [is_fn andb orb].
     destruct (existsb _ (rfields (RField p n))); auto.
   - (* a constant *) unfold skipped. rewrite andb_false_r. reflexivity.
@@ -366,17 +267,17 @@ Proof.
     unfold skipped. rewrite andb_false_r. cbn [ret1 star_term]. unfold ret_bad. cbn [is_fn andb].
     destruct (is_agg (RFn fk args)) as [[|]|] eqn:Ea; cbn [orb]; auto;
       (destruct Hc as [Hc|Hc];
-       [ cbn in Hc; rewrite validate_fieldless by auto;
-         unfold has_fields in Hc; destruct (rfields (RFn fk args)); [reflexivity|discriminate]
-       | rewrite validate_ret_spec by auto; rewrite term_validate_exact by auto;
+       [ cbn in Hc; unfold has_fields in Hc; unfold term_fields;
+         destruct (rfields (RFn fk args)); [reflexivity|discriminate]
+       | rewrite validate_ret_spec by auto; rewrite term_validate_exact;
          destruct (existsb _ (rfields (RFn fk args))); auto ]).
   - (* an arithmetic expression *)
     unfold skipped. rewrite andb_false_r. cbn [ret1 star_term]. unfold ret_bad. cbn [is_fn andb].
     destruct (is_agg (RArith l r)) as [[|]|] eqn:Ea; cbn [orb]; auto;
       (destruct Hc as [Hc|Hc];
-       [ cbn in Hc; rewrite validate_fieldless by auto;
-         unfold has_fields in Hc; destruct (rfields (RArith l r)); [reflexivity|discriminate]
-       | rewrite validate_ret_spec by auto; rewrite term_validate_exact by auto;
+       [ cbn in Hc; unfold has_fields in Hc; unfold term_fields;
+         destruct (rfields (RArith l r)); [reflexivity|discriminate]
+       | rewrite validate_ret_spec by auto; rewrite term_validate_exact;
          destruct (existsb _ (rfields (RArith l r))); auto ]).
 Qed.
 
@@ -389,7 +290,7 @@ Proof.
     destruct star; auto.
 Qed.
 
-Lemma returning_exact : forall ts s k, ret_inv s -> (forall t, In t ts -> term_ok s t) ->
+Lemma returning_exact : forall ts s k, is_dml s = true -> (forall t, In t ts -> term_ok s t) ->
   (fold_res ret1 s ts = Err k <-> (existsb (ret_bad s) (effective (pg_rstar s) ts) = true /\ k = QueryExc)).
 Proof.
   induction ts as [|t ts IH]; intros s k Hi Hok.
@@ -400,8 +301,8 @@ Proof.
     + cbn [existsb]. destruct (ret_bad s t) eqn:Eb.
       * cbn. split; [intro H; injection H as <-; auto | intros [_ ->]; auto].
       * cbn [orb].
-        assert (Hi' : ret_inv (if star_term t then set_rstar s true else s)).
-        { destruct (star_term t); auto. destruct Hi. constructor; auto. }
+        assert (Hi' : is_dml (if star_term t then set_rstar s true else s) = true).
+        { destruct (star_term t); auto. }
         assert (Hok' : forall t', In t' ts -> term_ok (if star_term t then set_rstar s true else s) t').
         { intros t' Ht'. specialize (Hok t' (or_intror Ht')). destruct (star_term t); auto. }
         rewrite (IH _ k Hi' Hok').
@@ -411,6 +312,17 @@ Proof.
         assert (E2 : forall l, existsb (ret_bad (if star_term t then set_rstar s true else s)) l = existsb (ret_bad s) l).
         { intro l. destruct (star_term t); auto. }
         rewrite E2. tauto.
+Qed.
+
+(* 393df3f: once the check in front of the loop has passed, no term of select() can be rejected any more
+   (the raise inside _select_field_str is dead): nothing is applied before a rejection *)
+Lemma select_loop_total : forall ts s,
+  Nat.eqb (List.length (q_from s)) 0 && existsb (fun t => match t with SStr _ => true | _ => false end) ts = false ->
+  exists s', fold_res sel1 s ts = Ok s'.
+Proof.
+  intros ts s H. destruct (fold_res sel1 s ts) as [s'|e] eqn:E; eauto.
+  apply select_err in E. destruct E as [Hf [Hs _]].
+  rewrite Hf in H. cbn in H. unfold is_sstr in Hs. congruence.
 Qed.
 
 (* ------------------------------------------------------------------------------------------ *)
@@ -426,10 +338,10 @@ Proof.
   - destruct H; discriminate.
 Qed.
 
-Theorem guards_q_exact : forall s c k, wf_q s c = true -> frag_q s c = true ->
+Theorem guards_q_exact : forall s c k, wf_q s c = true ->
   (step_q s c = Err k <-> first_fired guards_q (s, c) = Some k).
 Proof.
-  intros s c k Hwf Hfr.
+  intros s c k Hwf.
   unfold wf_q in Hwf. apply andb_prop in Hwf. destruct Hwf as [Happ Hwf].
   unfold step_q. rewrite Happ. cbn [negb].
   destruct c.
@@ -439,13 +351,14 @@ Proof.
   - (* update *) destruct s; unf; cbn; brk; fin.
   - (* delete *) destruct s; unf; cbn; brk; fin.
   - (* select *)
-    unf. cbn. rewrite hd_if. cbn. rewrite select_err.
-    rewrite andb_true_iff, Nat.eqb_eq.
-    assert (L : Datatypes.length (q_from s) = 0 <-> q_from s = [])
-      by (destruct (q_from s); cbn; split; intro; congruence).
-    rewrite L. unfold is_sstr. split; [intros [H1 [H2 H3]]|intros [[H1 H2] H3]]; subst; auto.
+    unf. cbn. rewrite hd_if. cbn.
+    destruct (Nat.eqb (Datatypes.length (q_from s)) 0 && existsb (fun t => match t with SStr _ => true | _ => false end) ts) eqn:E.
+    + split; [intro H; injection H as <-; auto | intros [_ <-]; auto].
+    + destruct (select_loop_total ts s E) as [s' Hs']. rewrite Hs'.
+      split; [discriminate | intros [H _]; discriminate].
   - (* columns *) destruct s; unf; cbn; brk; fin.
   - (* insert *) destruct s; unf; cbn; brk; fin.
+  - (* set *) destruct s; unf; fin.
   - (* groupby *) destruct s; unf; fin.
   - (* rollup *) destruct s; unf; cbn. destruct mysql, n, q_mysql_rollup, q_groupbys; fin.
   - (* join *)
@@ -468,33 +381,37 @@ Proof.
   - (* do_update *) destruct s; unf; cbn. destruct pg_nothing, f; fin.
   - (* where *) destruct s; unf; cbn. destruct empty, pg_conflict, pg_nothing, pg_fields, pg_updates; fin.
   - (* returning *)
-    cbn in Hfr.
-    apply andb_prop in Hfr. destruct Hfr as [Hfr Hkeys].
-    apply andb_prop in Hfr. destruct Hfr as [Hfr Hsingle].
-    apply andb_prop in Hfr. destruct Hfr as [Hd Ho].
     apply andb_prop in Hwf. destruct Hwf as [Hw1 Hw2].
-    unf. cbn. rewrite hd_if. cbn. rewrite Hd. cbn.
-    rewrite returning_exact.
-    + split; intros [H1 H2]; auto.
-    + constructor; auto.
-    + intros t Ht. rewrite forallb_forall in Hsingle, Hkeys. repeat split; auto.
-      * destruct (needs_crit t) eqn:En; auto. right.
-        apply orb_prop in Hw2. destruct Hw2 as [Hw2|Hw2]; auto.
-        apply negb_true_iff in Hw2. exfalso.
-        assert (existsb needs_crit ts = true) by (apply existsb_exists; eauto). congruence.
-      * intros ->.
-        destruct (existsb (fun t => match t with RStr false => true | _ => false end) ts) eqn:Ex.
-        -- cbn in Hw1. exact Hw1.
-        -- exfalso. apply Bool.not_true_iff_false in Ex. apply Ex.
-           apply existsb_exists. exists (RStr false). auto.
+    unf. cbn. rewrite hd_if. cbn.
+    destruct (is_dml s) eqn:Hd; cbn.
+    + rewrite andb_false_r. rewrite returning_exact; auto.
+      * split; intros [H1 H2]; auto.
+      * intros t Ht. split.
+        -- destruct (needs_crit t) eqn:En; auto. right.
+           apply orb_prop in Hw2. destruct Hw2 as [Hw2|Hw2]; auto.
+           apply negb_true_iff in Hw2. exfalso.
+           assert (existsb needs_crit ts = true) by (apply existsb_exists; eauto). congruence.
+        -- intros ->.
+           destruct (existsb (fun t => match t with RStr false => true | _ => false end) ts) eqn:Ex.
+           ++ cbn in Hw1. exact Hw1.
+           ++ exfalso. apply Bool.not_true_iff_false in Ex. apply Ex.
+              apply existsb_exists. exists (RStr false). auto.
+    + destruct ts as [|t ts]; cbn; split; intro H; try discriminate.
+      * destruct H; discriminate.
+      * injection H as <-. auto.
+      * destruct H as [_ <-]. auto.
   - (* top *)
-    unf. cbn. cbn in Hfr. destruct v; try discriminate; cbn.
+    unf. cbn. destruct v; cbn.
     + destruct percent; cbn; [destruct (Z.leb 0 z && Z.leb z 100)|]; fin.
     + destruct percent; cbn; [destruct (Z.leb 0 z && Z.leb z 100)|]; fin.
+    + destruct percent; fin.
     + destruct percent; fin.
     + destruct percent; fin.
     + destruct percent, b; fin.
   - (* render *)
-    destruct s; unf; cbn. destruct q_cls; try (fin; fail).
+    unf. cbn -[renders unknown_with is_statement refers_unknown_with].
+    rewrite renders_is_statement, unknown_with_spec.
+    destruct (is_statement s && refers_unknown_with s); [fin|].
+    destruct s; cbn. destruct q_cls; try (fin; fail).
     destruct pg_nothing, pg_updates, pg_fields; fin.
 Qed.
